@@ -124,7 +124,7 @@ func (d *c17Daemon) send(f *c17Face, name enc.Name, cbp bool) enc.Name {
 	}
 	body = append(body, tlvwalk.TLV(0x12, nil)...)
 	body = append(body, tlvwalk.TLV(0x0a, []byte{byte(d.nonce >> 24), byte(d.nonce >> 16), byte(d.nonce >> 8), byte(d.nonce)})...)
-	body = append(body, tlvwalk.TLV(0x0c, []byte{0x03, 0xe8})...)
+	body = append(body, tlvwalk.TLV(0x0c, []byte{0x27, 0x10})...)
 	face.VerifRecv(f.ls, tlvwalk.TLV(5, body))
 	return name
 }
@@ -179,7 +179,7 @@ func (d *c17Daemon) command(f *c17Face, prefix, module, verb string, comp *enc.C
 func (d *c17Daemon) dataset(module, verb string) []byte {
 	name, _ := enc.NameFromStr("/localhost/nfd/" + module + "/" + verb)
 	d.send(d.app, name, true)
-	_, content := d.await(d.app, name, 3*time.Second)
+	_, content := d.await(d.app, name, 15*time.Second)
 	return content
 }
 
@@ -247,7 +247,7 @@ func (d *c17Daemon) fail(key, id, what string, extra map[string]any) {
 func (d *c17Daemon) alive(id string) bool {
 	name, _ := enc.NameFromStr("/localhost/nfd/status/general")
 	d.send(d.app, name, true)
-	if _, content := d.await(d.app, name, 5*time.Second); content == nil {
+	if _, content := d.await(d.app, name, 15*time.Second); content == nil {
 		d.fail("C17:daemon-unresponsive", id, "the daemon no longer answers status/general after the last command", nil)
 		return false
 	}
@@ -322,7 +322,7 @@ func (d *c17Daemon) step(id string, r *rand.Rand) bool {
 			}
 			d.log = append(d.log, fmt.Sprintf("%s: face %d rib/register %s face=%v origin=%v cost=%v flags=%v", id, requester.id, n, fmtU(a.FaceId), fmtU(a.Origin), fmtU(a.Cost), fmtU(a.Flags)))
 			cp := c17Params(a)
-			resp := d.command(requester, "/localhost/nfd", "rib", "register", &cp, 3*time.Second)
+			resp := d.command(requester, "/localhost/nfd", "rib", "register", &cp, 15*time.Second)
 			if resp == nil || resp.StatusCode != 200 {
 				d.fail("C17:valid-command-not-200:rib/register", id, fmt.Sprintf("well-formed rib/register from a local face was answered with %s", respStr(resp)), nil)
 				return false
@@ -350,7 +350,7 @@ func (d *c17Daemon) step(id string, r *rand.Rand) bool {
 			}
 			d.log = append(d.log, fmt.Sprintf("%s: face %d rib/unregister %s face=%v origin=%v", id, requester.id, n, fmtU(a.FaceId), fmtU(a.Origin)))
 			cp := c17Params(a)
-			resp := d.command(requester, "/localhost/nfd", "rib", "unregister", &cp, 3*time.Second)
+			resp := d.command(requester, "/localhost/nfd", "rib", "unregister", &cp, 15*time.Second)
 			if resp == nil || resp.StatusCode != 200 {
 				d.fail("C17:valid-command-not-200:rib/unregister", id, "well-formed rib/unregister was answered with "+respStr(resp), nil)
 				return false
@@ -373,7 +373,7 @@ func (d *c17Daemon) step(id string, r *rand.Rand) bool {
 				a := &mgmt.ControlArgs{Name: n, FaceId: u64p(fid), Cost: u64p(cst)}
 				d.log = append(d.log, fmt.Sprintf("%s: fib/add-nexthop %s face=%d cost=%d", id, n, fid, cst))
 				cp := c17Params(a)
-				resp := d.command(requester, "/localhost/nfd", "fib", "add-nexthop", &cp, 3*time.Second)
+				resp := d.command(requester, "/localhost/nfd", "fib", "add-nexthop", &cp, 15*time.Second)
 				if resp == nil || resp.StatusCode != 200 {
 					d.fail("C17:valid-command-not-200:fib/add-nexthop", id, "well-formed fib/add-nexthop was answered with "+respStr(resp), nil)
 					return false
@@ -386,7 +386,7 @@ func (d *c17Daemon) step(id string, r *rand.Rand) bool {
 				a := &mgmt.ControlArgs{Name: n, FaceId: u64p(fid)}
 				d.log = append(d.log, fmt.Sprintf("%s: fib/remove-nexthop %s face=%d", id, n, fid))
 				cp := c17Params(a)
-				resp := d.command(requester, "/localhost/nfd", "fib", "remove-nexthop", &cp, 3*time.Second)
+				resp := d.command(requester, "/localhost/nfd", "fib", "remove-nexthop", &cp, 15*time.Second)
 				if resp == nil || resp.StatusCode != 200 {
 					d.fail("C17:valid-command-not-200:fib/remove-nexthop", id, "well-formed fib/remove-nexthop was answered with "+respStr(resp), nil)
 					return false
@@ -407,7 +407,7 @@ func (d *c17Daemon) step(id string, r *rand.Rand) bool {
 				a := &mgmt.ControlArgs{Name: n, Strategy: &mgmt.Strategy{Name: sn}}
 				d.log = append(d.log, fmt.Sprintf("%s: strategy-choice/set %s %s", id, n, sname))
 				cp := c17Params(a)
-				resp := d.command(requester, "/localhost/nfd", "strategy-choice", "set", &cp, 3*time.Second)
+				resp := d.command(requester, "/localhost/nfd", "strategy-choice", "set", &cp, 15*time.Second)
 				if resp == nil || resp.StatusCode != 200 {
 					d.fail("C17:valid-command-not-200:strategy-choice/set", id, "well-formed strategy-choice/set was answered with "+respStr(resp), nil)
 					return false
@@ -421,7 +421,7 @@ func (d *c17Daemon) step(id string, r *rand.Rand) bool {
 				a := &mgmt.ControlArgs{Name: n}
 				d.log = append(d.log, fmt.Sprintf("%s: strategy-choice/unset %s", id, n))
 				cp := c17Params(a)
-				resp := d.command(requester, "/localhost/nfd", "strategy-choice", "unset", &cp, 3*time.Second)
+				resp := d.command(requester, "/localhost/nfd", "strategy-choice", "unset", &cp, 15*time.Second)
 				if resp == nil || resp.StatusCode != 200 {
 					d.fail("C17:valid-command-not-200:strategy-choice/unset", id, "well-formed strategy-choice/unset was answered with "+respStr(resp), nil)
 					return false
@@ -434,7 +434,7 @@ func (d *c17Daemon) step(id string, r *rand.Rand) bool {
 			a := &mgmt.ControlArgs{Capacity: u64p(capv)}
 			d.log = append(d.log, fmt.Sprintf("%s: cs/config capacity=%d", id, capv))
 			cp := c17Params(a)
-			resp := d.command(requester, "/localhost/nfd", "cs", "config", &cp, 3*time.Second)
+			resp := d.command(requester, "/localhost/nfd", "cs", "config", &cp, 15*time.Second)
 			if resp == nil || resp.StatusCode != 200 {
 				d.fail("C17:valid-command-not-200:cs/config", id, "well-formed cs/config was answered with "+respStr(resp), nil)
 				return false
@@ -447,7 +447,7 @@ func (d *c17Daemon) step(id string, r *rand.Rand) bool {
 			a := &mgmt.ControlArgs{FaceId: u64p(tgt.id), Mtu: u64p(mtu)}
 			d.log = append(d.log, fmt.Sprintf("%s: faces/update face=%d mtu=%d", id, tgt.id, mtu))
 			cp := c17Params(a)
-			resp := d.command(requester, "/localhost/nfd", "faces", "update", &cp, 3*time.Second)
+			resp := d.command(requester, "/localhost/nfd", "faces", "update", &cp, 15*time.Second)
 			if resp == nil || resp.StatusCode != 200 {
 				d.fail("C17:valid-command-not-200:faces/update", id, "faces/update with a usable MTU was answered with "+respStr(resp), nil)
 				return false
@@ -483,7 +483,7 @@ func (d *c17Daemon) step(id string, r *rand.Rand) bool {
 				// allowed: RIB command under the link-local prefix
 				cls = "localhop-rib-allowed"
 				d.log = append(d.log, fmt.Sprintf("%s: face %d sends /localhop/nfd/rib/register %s (allowed)", id, d.peer.id, n))
-				resp := d.command(d.peer, "/localhop/nfd", "rib", "register", &cp, 3*time.Second)
+				resp := d.command(d.peer, "/localhop/nfd", "rib", "register", &cp, 15*time.Second)
 				if resp == nil || resp.StatusCode != 200 {
 					d.fail("C17:localhop-rib-refused-although-enabled", id, "rib/register under /localhop/nfd with allow_localhop=true was answered with "+respStr(resp), nil)
 					return false
@@ -530,7 +530,7 @@ func (d *c17Daemon) step(id string, r *rand.Rand) bool {
 			mv := [][2]string{{"rib", "register"}, {"rib", "unregister"}, {"fib", "add-nexthop"}, {"fib", "remove-nexthop"}, {"strategy-choice", "set"}, {"strategy-choice", "unset"}, {"cs", "config"}, {"faces", "update"}, {"faces", "destroy"}}[r.Intn(9)]
 			cls += ":" + mv[0] + "/" + mv[1]
 			d.log = append(d.log, fmt.Sprintf("%s: %s/%s without ControlParameters", id, mv[0], mv[1]))
-			resp = d.command(requester, "/localhost/nfd", mv[0], mv[1], nil, 3*time.Second)
+			resp = d.command(requester, "/localhost/nfd", mv[0], mv[1], nil, 15*time.Second)
 		case 1:
 			cls = "garbage-parameters"
 			g := make([]byte, 1+r.Intn(12))
@@ -539,44 +539,44 @@ func (d *c17Daemon) step(id string, r *rand.Rand) bool {
 			cp := enc.Component{Typ: 8, Val: g}
 			mv := [][2]string{{"rib", "register"}, {"fib", "add-nexthop"}, {"strategy-choice", "set"}, {"faces", "update"}}[r.Intn(4)]
 			d.log = append(d.log, fmt.Sprintf("%s: %s/%s with garbage parameters %x", id, mv[0], mv[1], g))
-			resp = d.command(requester, "/localhost/nfd", mv[0], mv[1], &cp, 3*time.Second)
+			resp = d.command(requester, "/localhost/nfd", mv[0], mv[1], &cp, 15*time.Second)
 		case 2:
 			cls = "missing-name"
 			cp := c17Params(&mgmt.ControlArgs{Cost: u64p(1)})
 			mv := [][2]string{{"rib", "register"}, {"rib", "unregister"}, {"fib", "add-nexthop"}, {"strategy-choice", "set"}, {"strategy-choice", "unset"}}[r.Intn(5)]
 			cls += ":" + mv[0] + "/" + mv[1]
 			d.log = append(d.log, fmt.Sprintf("%s: %s/%s without Name", id, mv[0], mv[1]))
-			resp = d.command(requester, "/localhost/nfd", mv[0], mv[1], &cp, 3*time.Second)
+			resp = d.command(requester, "/localhost/nfd", mv[0], mv[1], &cp, 15*time.Second)
 		case 3:
 			cls = "unknown-face"
 			cp := c17Params(&mgmt.ControlArgs{Name: n, FaceId: u64p(987654)})
 			mv := [][2]string{{"rib", "register"}, {"fib", "add-nexthop"}, {"faces", "update"}}[r.Intn(3)]
 			cls += ":" + mv[0] + "/" + mv[1]
 			d.log = append(d.log, fmt.Sprintf("%s: %s/%s with unknown face 987654", id, mv[0], mv[1]))
-			resp = d.command(requester, "/localhost/nfd", mv[0], mv[1], &cp, 3*time.Second)
+			resp = d.command(requester, "/localhost/nfd", mv[0], mv[1], &cp, 15*time.Second)
 		case 4:
 			cls = "missing-strategy"
 			cp := c17Params(&mgmt.ControlArgs{Name: n})
 			d.log = append(d.log, fmt.Sprintf("%s: strategy-choice/set without Strategy", id))
-			resp = d.command(requester, "/localhost/nfd", "strategy-choice", "set", &cp, 3*time.Second)
+			resp = d.command(requester, "/localhost/nfd", "strategy-choice", "set", &cp, 15*time.Second)
 		case 5:
 			cls = "unknown-strategy"
 			sn, _ := enc.NameFromStr([]string{"/localhost/nfd/strategy/nonexistent", "/some/other/name", "/localhost/nfd/strategy/multicast/v=99", "/localhost/nfd/strategy/multicast/notaversion",
 				"/localhost/nfd/strategy/best-route/v=0", "/localhost/nfd/strategy/multicast/v=0", "/localhost/nfd/strategy/best-route/v=2", "/localhost/nfd/strategy/best-route/v=18446744073709551615"}[r.Intn(8)])
 			cp := c17Params(&mgmt.ControlArgs{Name: n, Strategy: &mgmt.Strategy{Name: sn}})
 			d.log = append(d.log, fmt.Sprintf("%s: strategy-choice/set %s", id, sn))
-			resp = d.command(requester, "/localhost/nfd", "strategy-choice", "set", &cp, 3*time.Second)
+			resp = d.command(requester, "/localhost/nfd", "strategy-choice", "set", &cp, 15*time.Second)
 		case 6:
 			cls = "strategy-name-without-strategy-component"
 			sn, _ := enc.NameFromStr("/localhost/nfd/strategy")
 			cp := c17Params(&mgmt.ControlArgs{Name: n, Strategy: &mgmt.Strategy{Name: sn}})
 			d.log = append(d.log, fmt.Sprintf("%s: strategy-choice/set %s", id, sn))
-			resp = d.command(requester, "/localhost/nfd", "strategy-choice", "set", &cp, 3*time.Second)
+			resp = d.command(requester, "/localhost/nfd", "strategy-choice", "set", &cp, 15*time.Second)
 		case 7:
 			cls = "unset-root-strategy"
 			cp := c17Params(&mgmt.ControlArgs{Name: enc.Name{}})
 			d.log = append(d.log, fmt.Sprintf("%s: strategy-choice/unset /", id))
-			resp = d.command(requester, "/localhost/nfd", "strategy-choice", "unset", &cp, 3*time.Second)
+			resp = d.command(requester, "/localhost/nfd", "strategy-choice", "unset", &cp, 15*time.Second)
 		case 8:
 			cls = "flags-without-mask"
 			mv := [][2]string{{"cs", "config"}, {"faces", "update"}}[r.Intn(2)]
@@ -593,7 +593,7 @@ func (d *c17Daemon) step(id string, r *rand.Rand) bool {
 			cls += ":" + mv[0]
 			cp := c17Params(a)
 			d.log = append(d.log, fmt.Sprintf("%s: %s/%s with Flags xor Mask", id, mv[0], mv[1]))
-			resp = d.command(requester, "/localhost/nfd", mv[0], mv[1], &cp, 3*time.Second)
+			resp = d.command(requester, "/localhost/nfd", mv[0], mv[1], &cp, 15*time.Second)
 		case 9:
 			tgt := d.targetFace(r)
 			before = c17Snapshot() // the target face may just have been created by the harness
@@ -601,7 +601,7 @@ func (d *c17Daemon) step(id string, r *rand.Rand) bool {
 			cls = "mtu-too-small"
 			cp := c17Params(&mgmt.ControlArgs{FaceId: u64p(tgt.id), Mtu: u64p(mtu)})
 			d.log = append(d.log, fmt.Sprintf("%s: faces/update face=%d mtu=%d", id, tgt.id, mtu))
-			resp = d.command(requester, "/localhost/nfd", "faces", "update", &cp, 3*time.Second)
+			resp = d.command(requester, "/localhost/nfd", "faces", "update", &cp, 15*time.Second)
 			if resp == nil || resp.StatusCode < 400 || resp.StatusCode > 499 {
 				d.fail("C17:bad-command-not-4xx:"+cls, id, fmt.Sprintf("faces/update with MTU %d (too small to carry a packet) was answered with %s", mtu, respStr(resp)), nil)
 				return false
@@ -616,14 +616,14 @@ func (d *c17Daemon) step(id string, r *rand.Rand) bool {
 			cls = "mtu-23..127"
 			cp := c17Params(&mgmt.ControlArgs{FaceId: u64p(tgt.id), Mtu: u64p(mtu)})
 			d.log = append(d.log, fmt.Sprintf("%s: faces/update face=%d mtu=%d (status left open)", id, tgt.id, mtu))
-			resp = d.command(requester, "/localhost/nfd", "faces", "update", &cp, 3*time.Second)
+			resp = d.command(requester, "/localhost/nfd", "faces", "update", &cp, 15*time.Second)
 			need4xx = false
 			if !d.traffic(id, tgt) {
 				return false
 			}
 			// restore a sane MTU so that later steps are comparable
 			cp2 := c17Params(&mgmt.ControlArgs{FaceId: u64p(tgt.id), Mtu: u64p(8800)})
-			d.command(requester, "/localhost/nfd", "faces", "update", &cp2, 3*time.Second)
+			d.command(requester, "/localhost/nfd", "faces", "update", &cp2, 15*time.Second)
 			before = c17Snapshot()
 		}
 		if need4xx && (resp == nil || resp.StatusCode < 400 || resp.StatusCode > 499) {
